@@ -119,7 +119,11 @@ func c20Plans(thorough bool) []c20Plan {
 		if !thorough && n == "S3" {
 			b = 2
 		}
-		out = append(out, c20Plan{scenario: n, bound: b, need: need})
+		pl := c20Plan{scenario: n, bound: b, need: need}
+		if thorough && (n == "S3" || n == "S8b" || n == "S9") {
+			pl.maxExec = 300000 // per worker process; when hit the evidence says exhaustive: false for this scenario
+		}
+		out = append(out, pl)
 	}
 	if thorough {
 		// CHESS cost model (switching is free whenever the running thread blocks) on the smallest systems
